@@ -32,6 +32,21 @@ type GenCorpus struct {
 	Path    string   // yang include path
 	Flags   []string
 	Comment string
+	// TolerateErr: type errors of the generated package matching this pattern do not stop the load (a recorded
+	// finding makes the generator emit redeclared constants; the table literal is still verified)
+	TolerateErr string
+}
+
+// toleratedGenErrs: generated package path suffix -> pattern of type errors that are tolerated (see GenCorpus).
+var toleratedGenErrs = map[string]*regexp.Regexp{}
+
+func toleratedErr(pkgPath, msg string) bool {
+	for suf, re := range toleratedGenErrs {
+		if strings.HasSuffix(pkgPath, suf) && re.MatchString(msg) {
+			return true
+		}
+	}
+	return false
 }
 
 func corpusFor(prop, repoDir, verifDir string) []GenCorpus {
@@ -46,6 +61,30 @@ func corpusFor(prop, repoDir, verifDir string) []GenCorpus {
 		{Pkg: "utestschema", Yang: []string{filepath.Join(ops, "utestschema.yang"), filepath.Join(ops, "refschema.yang"), filepath.Join(ops, "ctestschema.yang"), filepath.Join(ops, "ctestschema-rootmod.yang")}, Path: ops,
 			Flags: append(append([]string{}, common...), "-annotations"), Comment: "repository test schemas, uncompressed"},
 	}
+	if prop == "C17" {
+		// enumeration / identity tables: the enum-rich schema under the enum-naming flag combinations, the key-type
+		// corpus, and (thorough) the repository test schemas
+		enumSchema := []string{filepath.Join(verifDir, "schemas", "venums.yang"), filepath.Join(verifDir, "schemas", "venums-ext.yang"), filepath.Join(verifDir, "schemas", "venums-aug.yang")}
+		base := []string{"-generate_fakeroot", "-fakeroot_name=device", "-generate_simple_unions"}
+		all = []GenCorpus{
+			{Pkg: "venums", Yang: enumSchema, Path: filepath.Join(verifDir, "schemas"), Flags: append(append([]string{}, base...), "-typedef_enum_with_defmod", "-enum_suffix_for_simple_union_enums", "-shorten_enum_leaf_names"),
+				Comment: "enumerations (leaf, typedef, union member, explicit and negative values), identities derived across three modules; recommended naming flags"},
+			all[0],
+			{Pkg: "venumsplain", Yang: enumSchema, Path: filepath.Join(verifDir, "schemas"), Flags: append(append([]string{}, base...), "-compress_paths"),
+				Comment: "same schema, legacy enum naming (no defining-module names, no shortening), compressed paths"},
+			{Pkg: "venumsnodedup", Yang: enumSchema, Path: filepath.Join(verifDir, "schemas"), Flags: append(append([]string{}, base...), "-compress_paths", "-typedef_enum_with_defmod", "-skip_enum_deduplication"),
+				Comment: "same schema, compressed paths without enum de-duplication"},
+			{Pkg: "venumsdup", Yang: append(append([]string{}, enumSchema...), filepath.Join(verifDir, "schemas", "venums-dup.yang")), Path: filepath.Join(verifDir, "schemas"),
+				Flags: append(append([]string{}, base...), "-typedef_enum_with_defmod", "-enum_suffix_for_simple_union_enums", "-shorten_enum_leaf_names"), TolerateErr: `redeclared|other declaration of`,
+				Comment: "adds a module that derives an identity named A from venums' BASE, which already has venums:A (recorded finding)"},
+			{Pkg: "vneg", Yang: []string{filepath.Join(verifDir, "schemas", "vneg.yang")}, Path: filepath.Join(verifDir, "schemas"), Flags: base,
+				Comment: "an enumeration with the YANG values -1, 0, 1 (recorded finding: -1 lands on the UNSET value)"},
+			all[1], all[2],
+		}
+		if genTier == "quick" {
+			all = all[:6]
+		}
+	}
 	// VERIF_GEN_ONLY=pkg[,pkg]: restrict the corpus (self-test runs and debugging)
 	if only := os.Getenv("VERIF_GEN_ONLY"); only != "" {
 		var out []GenCorpus
@@ -58,7 +97,7 @@ func corpusFor(prop, repoDir, verifDir string) []GenCorpus {
 		}
 		return out
 	}
-	if genTier == "quick" {
+	if genTier == "quick" && prop != "C17" {
 		// quick: the key-type corpus and the compressed repository schema; thorough adds the uncompressed one
 		// (same templates, three more ordered maps and three more keyed lists)
 		return all[:2]
@@ -126,6 +165,9 @@ func generateCorpus(repoDir, verifDir string, corpus []GenCorpus, props map[stri
 		overlay[filepath.Join(vdir, "zz_contracts_verif.go")] = []byte(spec)
 		genOverlayFiles[filepath.Join(vdir, gc.Pkg+".go")] = out
 		patterns = append(patterns, "./"+genDirName+"/"+gc.Pkg)
+		if gc.TolerateErr != "" {
+			toleratedGenErrs["/"+genDirName+"/"+gc.Pkg] = regexp.MustCompile(gc.TolerateErr)
+		}
 	}
 	os.Remove(gen)
 	return dir, overlay, patterns, instances, nil
@@ -394,6 +436,33 @@ func bindTemplates(tpl []tplSection, gc GenCorpus, goFile string, props map[stri
 		}
 		if n > 0 {
 			report = append(report, label)
+		}
+	}
+	// enumeration / identity types: every named type with a ΛMap method
+	var enums []string
+	for _, d := range f.Decls {
+		fd, ok := d.(*ast.FuncDecl)
+		if !ok || fd.Name.Name != "ΛMap" || fd.Recv == nil || len(fd.Recv.List) != 1 {
+			continue
+		}
+		if id, ok := fd.Recv.List[0].Type.(*ast.Ident); ok {
+			enums = append(enums, id.Name)
+		}
+	}
+	sort.Strings(enums)
+	for _, en := range enums {
+		n := 0
+		for _, s := range tpl {
+			if s.Kind != "enumtype" {
+				continue
+			}
+			for _, l := range s.Lines {
+				out.WriteString(strings.ReplaceAll(l, "$E", en) + "\n")
+			}
+			n++
+		}
+		if n > 0 {
+			report = append(report, fmt.Sprintf("%s.%s (enumtype)", gc.Pkg, en))
 		}
 	}
 	return report, out.String(), nil
